@@ -362,6 +362,9 @@ func genDma(rng *vh.Rng, hostile bool) DmaCase {
 				cj.Kind = "CD2H"
 				cj.Data = make([]int, ln)
 			}
+			if !hostile && rng.Intn(12) == 0 {
+				cj.Data = []int{} // a command of zero bytes is answered at once
+			}
 			if hostile {
 				switch rng.Intn(8) {
 				case 0:
